@@ -3,7 +3,7 @@
 //! (both recovery modes: `V`); the parse-parameter and the generic-tree mode are checked harness-side.
 use crate::gen::automaton::dump_automaton;
 use crate::gen::grammar::{self, GenCfg};
-use crate::gen::parse::{lr_terminates, parse_action_generictree_shape, parse_actions, parse_generic_shape, ActionCall, PTree, STRIDE, TOKLEN};
+use crate::gen::parse::{lr_terminates, parse_action_generictree_shape, parse_action_generictree_shape_costs, parse_actions, parse_generic_shape, parse_generic_shape_costs, ActionCall, PTree, STRIDE, TOKLEN};
 use crate::gen::sentences::inputs_for;
 use crate::gen::worker::{arg_text_pub, WResult, Worker};
 use crate::out::{guarded, plist, Out};
@@ -81,6 +81,16 @@ pub fn emit(out: &mut Out, worker: &mut Worker, text: &str, rng: &mut Rng, thoro
     let mut n_calls = 0u64;
     let mut n_rec_values = 0u64;
     let mut rejected_budget = if thorough { 30 } else { 8 };
+    // token costs for the runs under recovery: unit costs for half of the grammars, uneven ones for the
+    // rest (all three entry points must then agree on the SAME repaired parse)
+    let uneven = text.len() % 2 == 1;
+    let nt = usize::from(g.tokens_len());
+    let cvec: Vec<u8> = (0..nt).map(|t| if uneven { [1u8, 3, 2, 5][(t * 7 + text.len()) % 4] } else { 1 }).collect();
+    let cfn = |t: cfgrammar::TIdx<u32>| cvec[usize::from(t)];
+    let cref: Option<&dyn Fn(cfgrammar::TIdx<u32>) -> u8> = if uneven { Some(&cfn) } else { None };
+    if uneven {
+        out.count("grammars_with_uneven_costs_under_recovery");
+    }
     for w in &inputs {
         if !lr_terminates(&g, &st, w, 400 * (w.len() + 2)) {
             continue;
@@ -130,7 +140,7 @@ pub fn emit(out: &mut Out, worker: &mut Worker, text: &str, rng: &mut Rng, thoro
         k += 1;
         // recovery on, for rejected inputs, in the killable worker
         if !accepted && w.len() <= 8 {
-            let wr = worker.parse(text, w, true, None, std::time::Duration::from_millis(2500));
+            let wr = worker.parse(text, w, true, if uneven { Some(&cvec[..]) } else { None }, std::time::Duration::from_millis(2500));
             if let WResult::Panic(m) = &wr {
                 // e.g. a span that starts after it ends, built from a misplaced inserted lexeme
                 hfail.get_or_insert(format!("parser panicked under recovery on {:?}: {}", w, m));
@@ -139,7 +149,7 @@ pub fn emit(out: &mut Out, worker: &mut Worker, text: &str, rng: &mut Rng, thoro
                 if p2.wall_ms < 450 {
                     if let (Some(tt), true) = (&p2.tree, !p2.log.is_empty()) {
                         // re-run in process to get the structured result (deterministic now)
-                        if let Ok(p3) = guarded(std::panic::AssertUnwindSafe(|| parse_actions(&g, &st, w, RecoveryKind::CPCTPlus, None))) {
+                        if let Ok(p3) = guarded(std::panic::AssertUnwindSafe(|| parse_actions(&g, &st, w, RecoveryKind::CPCTPlus, cref))) {
                             if let Some(t3) = &p3.tree {
                                 if &t3.to_text() == tt {
                                     body.extend(plist(w).split(' ').map(|x| x.parse::<usize>().unwrap()));
@@ -149,11 +159,11 @@ pub fn emit(out: &mut Out, worker: &mut Worker, text: &str, rng: &mut Rng, thoro
                                     enc_log(&p3.log, &mut body);
                                     k += 1;
                                     n_rec_values += 1;
-                                    if let Some(shape) = parse_generic_shape(&g, &st, w, RecoveryKind::CPCTPlus) {
+                                    if let Some(shape) = parse_generic_shape_costs(&g, &st, w, RecoveryKind::CPCTPlus, cref) {
                                         if shape != shape_of(&g, t3) {
                                             hfail.get_or_insert(format!("parse_map tree differs from the action tree under recovery on {:?}", w));
                                         }
-                                        if guarded(std::panic::AssertUnwindSafe(|| parse_action_generictree_shape(&g, &st, w, RecoveryKind::CPCTPlus))).ok().flatten().as_ref() != Some(&shape) {
+                                        if guarded(std::panic::AssertUnwindSafe(|| parse_action_generictree_shape_costs(&g, &st, w, RecoveryKind::CPCTPlus, cref))).ok().flatten().as_ref() != Some(&shape) {
                                             hfail.get_or_insert(format!("the tree built with lrpar::action_generictree differs from the generic parse-tree mode under recovery on {:?}", w));
                                         }
                                     }
